@@ -445,7 +445,11 @@ func caseA(t *testing.T, c *Chain, cpc *cpcEnv, idx int, r *Rng, side *Sidecar, 
 		side.Count("action:" + strings.Fields(d)[0])
 		nAct = r.Intn(4)
 		onlyEvm = false
-	} else if r.Chance(28) {
+	} else if r.Chance(16) {
+		acts = scriptedLocked(w, run, callers)
+		nAct = r.Intn(3)
+		onlyEvm = false
+	} else if r.Chance(30) {
 		acts = scriptedA(w, run, callers, progs)
 		nAct = r.Intn(3) // a few random actions after the script
 		onlyEvm = false
@@ -551,7 +555,29 @@ func caseA(t *testing.T, c *Chain, cpc *cpcEnv, idx int, r *Rng, side *Sidecar, 
 			cc := w.cpcCall(run.db.GetCurrentContext(), from)
 			d = fmt.Sprintf("evm.CallCpc from %s: %s", w.desc[from], cc.desc)
 			run.do(true, w.hot, d, func() {
-				_, _, _ = run.evm.Call(corevm.AccountRef(from), cc.to, cc.data, 5_000_000, Bi(0))
+				n0 := len(run.db.log)
+				_, _, err := run.evm.Call(corevm.AccountRef(from), cc.to, cc.data, 5_000_000, Bi(0))
+				// a top-level precompile call that failed was reverted to the state it started from (only the
+				// precompile's own account was created and touched in between): the bank write it asked for must be
+				// one the model refuses there too. A successful one was recorded from its log.
+				if cc.op != "" {
+					if err != nil {
+						run.db.addForeign(fmt.Sprintf(cc.op, false), cc.addrs...)
+						side.Count("cpc_call:refused")
+					} else {
+						recorded := false
+						for _, o := range run.db.log[n0:] {
+							recorded = recorded || o.coq == fmt.Sprintf(cc.op, true)
+						}
+						if !recorded {
+							// a successful call that did not report the write it was asked for: the model applies it anyway
+							// and the stores decide
+							run.db.addForeign(fmt.Sprintf(cc.op, true), cc.addrs...)
+							side.Count("cpc_call:done-without-log")
+						}
+						side.Count("cpc_call:done")
+					}
+				}
 			})
 		case x < 110:
 			sp := specs[r.Intn(len(specs))]
@@ -714,6 +740,85 @@ func scriptedA(w *world, run *run, callers, progs []common.Address) []string {
 		w.side.Count("scenario_script:pay+touch")
 	}
 	noise()
+	return acts
+}
+
+// scriptedLocked: somebody tries to move coins of a vesting account that are locked at block time - through the StateDB
+// (SubBalance, a value transfer) or through another module (bank send, ERC-20 precompile, burn) - taking a part of
+// the locked amount only, so that the account is not empty afterwards and the commit has no reason to fail.
+func scriptedLocked(w *world, run *run, callers []common.Address) []string {
+	r := w.r
+	var acts []string
+	cur := run.db.GetCurrentContext()
+	type cand struct {
+		a common.Address
+		d int
+	}
+	var cs []cand
+	for _, a := range w.addrs {
+		l := lockedAt(w.c.App.AccountKeeper.GetAccount(cur, a.Bytes()), w.denoms, w.now)
+		for d := range w.denoms {
+			if l[d].Sign() > 0 && w.c.App.BankKeeper.GetBalance(cur, a.Bytes(), w.denoms[d]).Amount.BigInt().Cmp(l[d]) >= 0 {
+				cs = append(cs, cand{a, d})
+			}
+		}
+	}
+	if len(cs) == 0 {
+		return acts
+	}
+	c := cs[r.Intn(len(cs))]
+	for _, k := range cs {
+		if k.d == 0 && r.Chance(60) {
+			c = k // the EVM denomination: the StateDB's own paths apply
+			break
+		}
+	}
+	x, d := c.a, c.d
+	bal := w.c.App.BankKeeper.GetBalance(cur, x.Bytes(), w.denoms[d]).Amount.BigInt()
+	locked := lockedAt(w.c.App.AccountKeeper.GetAccount(cur, x.Bytes()), w.denoms, w.now)[d]
+	spendable := new(big.Int).Sub(bal, locked)
+	// a part of the locked amount: 1, half, all but one (all of it when only 1 is locked)
+	part := []*big.Int{Bi(1), new(big.Int).Rsh(locked, 1), Bsub(locked, 1)}[r.Intn(3)]
+	if part.Sign() <= 0 {
+		part = Bi(1)
+	}
+	amt := new(big.Int).Add(spendable, part)
+	to := callers[1]
+	act := func(evm bool, dsc string, f func()) {
+		if run.failed {
+			return
+		}
+		run.do(evm, x, dsc, f)
+		acts = append(acts, dsc)
+		w.side.Count("action:" + strings.Fields(dsc)[0])
+	}
+	kind := r.Intn(10)
+	if d == 0 && r.Bool() {
+		kind = r.Intn(4)
+	}
+	if d != 0 && kind < 4 {
+		kind = 4 + r.Intn(6)
+	}
+	switch {
+	case kind < 2:
+		act(false, fmt.Sprintf("SubBalance %s %s", w.desc[x], amt), func() { run.db.SubBalance(x, amt) })
+	case kind < 4:
+		act(true, fmt.Sprintf("evm.Call from %s value %s", w.desc[x], amt), func() {
+			_, _, _ = run.evm.Call(corevm.AccountRef(x), to, nil, 5_000_000, amt)
+		})
+	case kind < 6:
+		act(false, fmt.Sprintf("Foreign.Send %s -> caller denom %d %s", w.desc[x], d, amt), func() { run.foreignSend(x, to, d, amt) })
+	case kind < 8:
+		act(true, fmt.Sprintf("evm.CallCpc from %s: erc20[%d].transfer(caller,%s)", w.desc[x], d, amt), func() {
+			_, _, err := run.evm.Call(corevm.AccountRef(x), w.cpc.erc20[d], cdTransfer(to, amt), 5_000_000, Bi(0))
+			if err != nil {
+				run.db.addForeign(fmt.Sprintf("XSend %s %s %d %s false", az(x), az(to), d, cz(amt)), x, to)
+			}
+		})
+	default:
+		act(false, fmt.Sprintf("Foreign.Burn %s denom %d %s", w.desc[x], d, amt), func() { run.foreignBurn(x, d, amt) })
+	}
+	w.side.Count(fmt.Sprintf("scenario_script:spend-locked kind=%d", kind/2))
 	return acts
 }
 
